@@ -477,6 +477,15 @@ impl<RW: QueueRW<T>, T> MultiQueue<RW, T> {
         }
     }
 
+    /// The publication flag of the slot that will hold sequence number `count`.
+    /// A waiter must watch the slot that belongs to the sequence it waits for: the
+    /// slot of an earlier failed attempt may differ once siblings advanced the stream.
+    #[inline(always)]
+    fn flag_for(&self, count: usize) -> &AtomicUsize {
+        let index = (count & (self.capacity as usize - 1)) as isize;
+        unsafe { &(*self.data.offset(index)).wraps }
+    }
+
     fn reload_tail_multi(&self, tail_cache: usize, count: usize) -> usize {
         if let Some(max_diff_from_head) = self.tail.get_max_diff(count) {
             let current_tail = CountedIndex::get_previous(count, max_diff_from_head);
@@ -573,13 +582,13 @@ impl<RW: QueueRW<T>, T> InnerRecv<RW, T> {
             match self.queue.try_recv(&self.reader) {
                 Ok(v) => return Ok(v),
                 Err((_, TryRecvError::Disconnected)) => return Err(RecvError),
-                Err((pt, TryRecvError::Empty)) => {
+                Err((_, TryRecvError::Empty)) => {
                     vpoint!(B_EMPTY);
                     let count = self.reader.load_count(Relaxed);
                     vpoint!(B_BEFORE_WAIT);
-                    unsafe {
-                        self.queue.waiter.wait(count, &*pt, &self.queue.writers);
-                    }
+                    self.queue
+                        .waiter
+                        .wait(count, self.queue.flag_for(count), &self.queue.writers);
                 }
             }
         }
@@ -604,14 +613,14 @@ impl<RW: QueueRW<T>, T> InnerRecv<RW, T> {
             match self.queue.try_recv_view(op, &self.reader) {
                 Ok(v) => return Ok(v),
                 Err((o, _, TryRecvError::Disconnected)) => return Err((o, RecvError)),
-                Err((o, pt, TryRecvError::Empty)) => {
+                Err((o, _, TryRecvError::Empty)) => {
                     op = o;
                     vpoint!(B_EMPTY);
                     let count = self.reader.load_count(Relaxed);
                     vpoint!(B_BEFORE_WAIT);
-                    unsafe {
-                        self.queue.waiter.wait(count, &*pt, &self.queue.writers);
-                    }
+                    self.queue
+                        .waiter
+                        .wait(count, self.queue.flag_for(count), &self.queue.writers);
                 }
             }
         }
@@ -854,11 +863,12 @@ impl<RW: QueueRW<T>, T> Stream for &FutInnerRecv<RW, T> {
                     return Ok(Async::Ready(Some(msg)));
                 }
                 Err((_, TryRecvError::Disconnected)) => return Ok(Async::Ready(None)),
-                Err((pt, _)) => {
+                Err((_, _)) => {
                     vpoint!(B_EMPTY);
                     let count = self.reader.reader.load_count(Relaxed);
                     vpoint!(B_BEFORE_WAIT);
-                    if unsafe { self.wait.fut_wait(count, &*pt, &self.reader.queue.writers) } {
+                    let queue = &self.reader.queue;
+                    if self.wait.fut_wait(count, queue.flag_for(count), &queue.writers) {
                         return Ok(Async::NotReady);
                     }
                 }
@@ -893,11 +903,12 @@ impl<RW: QueueRW<T>, R, F: for<'r> FnMut(&T) -> R, T> Stream for FutInnerUniRecv
                     return Ok(Async::Ready(Some(msg)));
                 }
                 Err((_, _, TryRecvError::Disconnected)) => return Ok(Async::Ready(None)),
-                Err((_, pt, _)) => {
+                Err((_, _, _)) => {
                     vpoint!(B_EMPTY);
                     let count = self.reader.reader.load_count(Relaxed);
                     vpoint!(B_BEFORE_WAIT);
-                    if unsafe { self.wait.fut_wait(count, &*pt, &self.reader.queue.writers) } {
+                    let queue = &self.reader.queue;
+                    if self.wait.fut_wait(count, queue.flag_for(count), &queue.writers) {
                         return Ok(Async::NotReady);
                     }
                 }
